@@ -63,7 +63,8 @@ def gen_one(rng, k):
     nA = rng.randrange(0, burst)
     nB = burst - 1 - nA
     if kind in ("not", "big", "share"):
-        nA, nB = min(nA, 4), min(nB, 3)
+        # every joiner re-forwards; several doing so at the same instant may or may not share one another's new entry
+        nA, nB = min(nA, 1), min(nB, 3)
     s = {"kind": kind, "smp": smp, "nw": nw, "size": size, "first": first, "cut": cut, "lw": w(),
          "A": [w() for _ in range(nA)], "B": [w() for _ in range(nB)], "C": [w() for _ in range(rng.randrange(0, 3))]}
     if kind == "tr_ch" and smp and sum(1 for x in s["A"] + s["B"] if x != s["lw"]) >= 2:
